@@ -1,11 +1,11 @@
 // C10 — blocked peers, addresses and subnets never obtain a connection; rules persist.
 //
-// Three strata, drawn first (hooks-direct | full-stack over TCP | full-stack with QUIC next to TCP):
+// Four strata, drawn first (hooks-direct | full-stack over TCP | full-stack with QUIC next to TCP | full-stack with a relay):
 //
 //	full-stack   three REAL nodes on simnet (swarm, TCP dial path, gated listener, upgrader, Noise, yamux):
 //	             G owns a real conngater.BasicConnectionGater on a simdisk.Disk; P and Q (no gater) sit on IP
 //	             addresses drawn from the edges of the subnets that get blocked (IPv4 and IPv6). A history of
-//	             Block*/Unblock* calls (peer / addr in 4- and 16-byte form / canonical subnets), each optionally
+//	             Block*/Unblock* calls (peer / addr in 4- and 16-byte form / subnets in canonical and non-canonical spellings), each optionally
 //	             cut by a process stop right after its datastore mutation or failed by an I/O error, clean
 //	             restarts, and rounds of concurrent dials in both directions (G dials P/Q through /ip4, /ip6,
 //	             /ip6/::ffff:a.b.c.d, /dns4, /dns6, /dns forms resolved by a fake resolver, plus decoy addresses
@@ -32,6 +32,16 @@
 //	             (Swarm.DialPeer or the QUIC transport's Dial with WithSimultaneousConnect(ctx,false,…)) while the host
 //	             or its twin (same key, on the host's decoy IP, alive for that round) dials G over QUIC after 0 / 50 ms /
 //	             1 s / 4.9 s; optionally one Block/Unblock on a rule matching the host or the twin returns mid-punch.
+//	full-stack-relay  full-stack over TCP with basic hosts: Q runs the REAL circuit-v2 relay service (unlimited), P has
+//	             the circuit client transport and holds a reservation on Q, G has the real client transport (wrapped:
+//	             every address that reaches its Dial is judged). In half of G's dials of P the relayed address
+//	             /ip/Q/tcp/4001/p2p/Q/p2p-circuit is all G knows, and connections are kept across steps in 5/8 of the
+//	             rounds, so that "G connected to the relay, then the relay's IP / subnet is blocked, then G dials P through
+//	             the circuit" occurs: the client transport reuses the existing connection, no dial of the relay happens,
+//	             and only InterceptAddrDial on the circuit address (its IP component is the relay's) stands in the way.
+//	             In the other full-stack strata a STUB transport on G claims /p2p-circuit addresses and fails every dial at
+//	             once: it is the observation point "this address was handed to a transport's Dial" (relay = the other
+//	             host or the peer's decoy IP under a relay identity nobody runs).
 //	hooks-direct the gater alone (same histories, faults, restarts); after every call every Intercept* hook is
 //	             asked about every pool IP in every textual form (/ip4, /ip6, /ip6/::ffff:…, /ip6zone, quic-v1,
 //	             webtransport, webrtc-direct, ws, bare IP) and about forms without IP component.
@@ -45,6 +55,13 @@
 // instead of replaced in 1/3 of the dials (addresses learned before the last rule change, incl. the swarm's own
 // resolved TempAddrTTL entries, are met by the next dial). Rule changes happen at quiescent instants (except
 // mid-punch): Block*/Unblock* never race with an in-flight handshake in ordinary rounds — a stated assumption.
+//
+// Subnet spellings: BlockSubnet / UnblockSubnet are also called with non-canonical values (host bits set, 16-byte IPv4
+// with a 4-byte mask, IPv4-mapped with and without host bits), and Unblock uses the very spelling of an earlier call.
+// The model keys a subnet by the network it denotes; lists are compared by network (a reloaded rule may be listed in
+// canonical spelling). Where one network was blocked under two spellings and one is unblocked the statement is
+// silent (one rule or two?): the other spelling becomes "unknown" (weaker reading). (Non-contiguous masks are not
+// generated: IPNet.String() prints them in a form ParseCIDR cannot read back.)
 //
 // Reference model: the ACKNOWLEDGED rule set. A call that returned nil sets its rule to blocked/unblocked; a
 // call that returned an error or was cut by the process stop leaves the rule "unknown" (either way is legal)
@@ -69,6 +86,9 @@
 //	                 established at the gating point, so "closed at accept / right after the handshake" is visible only
 //	                 as the remote's connection going away; far below the 30 s idle timeout)
 //	punch-returned-* what the QUIC transport's server-role Dial RETURNS (called directly) matches a rule definitely in force
+//	dialed-*/circuit, hook-not-consulted/InterceptAddrDial/outbound/circuit  a relayed address reached a transport's Dial on
+//	                 G although its IP component (the relay's) matches a rule definitely in force / although the
+//	                 gater never allowed it at InterceptAddrDial; admitted-*/outbound/circuit for relayed connections
 //	hook-not-consulted  a connection is admitted on G although the gater did not allow it, since this node started,
 //	                 at one of the call sites the ConnectionGater interface documents for it (outbound: PeerDial,
 //	                 AddrDial for that transport+IP, Secured(outbound) for that peer+transport+IP, Upgraded for that
@@ -156,6 +176,11 @@
 //	punch matched by peer id alone + InterceptAccept skipped for connections answering a punch       admitted-blocked-{addr,subnet}/outbound/quic/{ip4,ip6}, punch-returned-blocked-{addr,subnet}/quic, refused-inbound-not-closed/{addr,subnet}/quic (twin from a blocked IP)
 //	(both MISSED before hole-punch rounds existed)
 //
+// Seeded changes C10d/1 and C10d/2 (scratch copies of the tree, `./check C10 quick`, 8 workers; both MISSED before):
+//
+//	swarm filterKnownUndialables lets /p2p-circuit addresses through without InterceptAddrDial   hook-not-consulted/InterceptAddrDial/outbound/circuit, dialed-blocked-{addr,subnet}/circuit/{live,restored} (stub and real relay); relay stratum: admitted-blocked-addr/outbound/circuit/… (existing relay connection reused)
+//	loadRules keys a reloaded subnet by its canonical spelling (Unblock of a host-bits spelling after a restart misses it)   list/not-blocked-listed/subnet/live, hook/Intercept{AddrDial,Accept}/refused-non-matching, restart-changed-rules/subnet/{appeared,vanished}
+//
 // WebTransport (overlay copies of p2p/transport/webtransport/{listener,transport}.go, C10_ONLY=quic, one worker, <= 60 s):
 //
 //	listener.go: InterceptAccept skipped                                    hook-not-consulted/InterceptAccept/inbound/webtransport, admitted-blocked-{addr,subnet}/inbound/webtransport/{ip4,ip6}/{live,restored}
@@ -188,6 +213,8 @@ import (
 	"github.com/libp2p/go-libp2p/core/transport"
 	"github.com/libp2p/go-libp2p/p2p/net/conngater"
 	"github.com/libp2p/go-libp2p/p2p/net/swarm"
+	"github.com/libp2p/go-libp2p/p2p/protocol/circuitv2/client"
+	"github.com/libp2p/go-libp2p/p2p/protocol/circuitv2/relay"
 	ma "github.com/multiformats/go-multiaddr"
 
 	"verifsim/harness/common"
@@ -198,7 +225,7 @@ import (
 	"verifsim/simrt"
 )
 
-// forceStratum: development knob for sensitivity runs (C10_ONLY=full|hooks|quic restricts the sweep to one stratum;
+// forceStratum: development knob for sensitivity runs (C10_ONLY=full|hooks|quic|relay restricts the sweep to one stratum;
 // C10_DEBUG=1 prints the decoded trace of a run that ends in trouble or a violation).
 // Unset in every registered run; the stratum draw is still consumed, so tapes stay comparable.
 var forceStratum = func() int {
@@ -209,6 +236,8 @@ var forceStratum = func() int {
 		return 0
 	case "quic":
 		return 2
+	case "relay":
+		return 3
 	}
 	return -1
 }()
@@ -230,6 +259,7 @@ type world struct {
 	names map[peer.ID]string
 	ids   map[string]peer.ID
 
+	touched    []*rule // rules (by key and spelling) some call was made on, in order of first use
 	lastListed map[string]bool
 	inflight   string
 	ackedBlock int
@@ -335,6 +365,18 @@ func (w *world) applyRule(block bool, r *rule, fault int) (crashed bool) {
 	}
 	acked := !crashed && err == nil
 	w.m.update(r, block, acked, w.inc)
+	known := false
+	for _, t := range w.touched {
+		if t.key == r.key && t.spell == r.spell && len(t.ip) == len(r.ip) {
+			known = true
+		}
+	}
+	if !known {
+		w.touched = append(w.touched, r)
+	}
+	if r.kind == kSubnet && r.spell != strings.TrimPrefix(r.key, "s:") {
+		w.probe("subnet-call-non-canonical-spelling")
+	}
 	if acked && block {
 		w.ackedBlock++
 	}
@@ -366,7 +408,7 @@ func (w *world) listed() map[string]bool {
 		if n == nil {
 			out["s:?"] = true
 		} else {
-			out["s:"+n.String()] = true
+			out["s:"+canonNet(n)] = true // by network: a reloaded rule may be listed in canonical spelling
 		}
 	}
 	return out
@@ -473,10 +515,9 @@ func (w *world) reopen(afterStop bool) bool {
 func (w *world) drawOp() (bool, *rule, int) {
 	block := w.g.Weighted(3, 2) == 0
 	var r *rule
-	touched := w.m.keys()
-	if !block && len(touched) > 0 && !w.g.Chance(1, 6) {
-		// unblock something that was touched before (mostly)
-		r = w.m.rules[touched[w.g.Int(len(touched))]]
+	if !block && len(w.touched) > 0 && !w.g.Chance(1, 6) {
+		// unblock something that was touched before (mostly), in the very spelling that was used
+		r = w.touched[w.g.Int(len(w.touched))]
 	} else {
 		r = w.cat[w.g.Int(len(w.cat))]
 	}
@@ -535,6 +576,22 @@ func (w *world) modelString() string {
 		}
 	}
 	return "{" + strings.Join(parts, " ") + "}"
+}
+
+// Non-canonical spellings of the subnets above (and of each other): what an application that builds net.IPNet values
+// itself may hand to BlockSubnet / UnblockSubnet.
+var rawSubnets4 = []*rule{
+	rawSubnetRule("10.0.1.70", 26, 32, 4, "host-bits"),
+	rawSubnetRule("10.0.1.127", 26, 32, 4, "host-bits"),
+	rawSubnetRule("10.0.1.70", 24, 32, 4, "host-bits"),
+	rawSubnetRule("10.0.1.70", 26, 32, 16, "16B-ip+4B-mask"),
+	rawSubnetRule("10.0.1.70", 122, 128, 16, "mapped+host-bits"),
+	rawSubnetRule("10.0.1.64", 122, 128, 16, "mapped"),
+}
+var rawSubnets6 = []*rule{
+	rawSubnetRule("fd00:1::50", 122, 128, 16, "host-bits"),
+	rawSubnetRule("fd00:1::7f", 122, 128, 16, "host-bits"),
+	rawSubnetRule("fd00:1::50", 64, 128, 16, "host-bits"),
 }
 
 // ---- stratum 2: hooks-direct ---------------------------------------------------------------------------
@@ -619,6 +676,8 @@ func (w *world) runHooksDirect() {
 		w.cat = append(w.cat, subnetRule(s), subnetRule(s)) // subnets twice: as likely as addresses
 	}
 	w.cat = append(w.cat, subnetRule("10.0.1.70/32"), subnetRule("fd00:1::50/128"), subnetRule("10.0.1.127/32"))
+	w.cat = append(w.cat, rawSubnets4...)
+	w.cat = append(w.cat, rawSubnets6...)
 	steps := 3 + w.g.Int(18)
 	w.sweep()
 	for i := 0; i < steps && !w.dead; i++ {
@@ -675,6 +734,7 @@ type fullStack struct {
 	refusedNonMatching bool
 	gClosed            bool
 	secu               string
+	relay              bool // relay stratum: nodes are basic hosts, Q runs a circuit-v2 relay, P holds a reservation on it
 
 	// QUIC stratum
 	quic      bool
@@ -740,6 +800,8 @@ func tptOf(a ma.Multiaddr) string {
 	if a != nil {
 		s := a.String()
 		switch {
+		case strings.Contains(s, "/p2p-circuit"):
+			return "circuit"
 		case strings.Contains(s, "/webtransport"):
 			return "webtransport"
 		case strings.Contains(s, "/quic-v1"):
@@ -929,7 +991,7 @@ func (fs *fullStack) startG() bool {
 	fs.admitted = map[string]int{}
 	fs.upgraded = map[network.Conn]bool{}
 	fs.mu.Unlock()
-	nd, err := simhost.New(fs.n, simhost.Opts{Key: simhost.DetKey(1), IP: gIP, Port: tcpPort, Security: fs.secu, Gater: &recGater{fs: fs}, QUIC: fs.quic, WebTransport: fs.quic,
+	nd, err := simhost.New(fs.n, simhost.Opts{Key: simhost.DetKey(1), IP: gIP, Port: tcpPort, Security: fs.secu, Gater: &recGater{fs: fs}, QUIC: fs.quic, WebTransport: fs.quic, WithHost: fs.relay,
 		SwarmOpts: []swarm.Option{swarm.WithMultiaddrResolver(fs.dns)}})
 	if err != nil {
 		fs.trouble("node G: %v", err)
@@ -937,7 +999,24 @@ func (fs *fullStack) startG() bool {
 	}
 	fs.G = nd
 	fs.gClosed = false
-	nd.Swarm.SetStreamHandler(func(s network.Stream) { s.Reset() })
+	if fs.relay {
+		// the real circuit-v2 client transport (wired as p2p/protocol/circuitv2/relay/relay_test.go does)
+		cl, err := client.New(nd.Host, nd.Up)
+		if err == nil {
+			err = nd.Swarm.AddTransport(&recCircuit{Client: cl, fs: fs})
+		}
+		if err != nil {
+			fs.trouble("circuit client transport on G: %v", err)
+			return false
+		}
+		cl.Start()
+	} else {
+		if err := nd.Swarm.AddTransport(&stubCircuit{fs: fs}); err != nil {
+			fs.trouble("stub circuit transport: %v", err)
+			return false
+		}
+		nd.Swarm.SetStreamHandler(func(s network.Stream) { s.Reset() })
+	}
 	nd.Swarm.Notify(&network.NotifyBundle{ConnectedF: func(_ network.Network, c network.Conn) {
 		ev := connEvent{stamp: simrt.Stamp(), conn: c, peer: c.RemotePeer(), addr: c.RemoteMultiaddr(), dir: c.Stat().Direction}
 		fs.mu.Lock()
@@ -1037,6 +1116,58 @@ func (fs *fullStack) judgeCallSites(n string, ip net.IP, tpt string, d network.D
 		fs.violate("C10/hook-not-consulted/"+hook+"/"+dir+"/"+tpt, "a %s %s connection with %s (%s) was %s on G but the gater did not allow it at %s since this node started", dir, tpt, n, where, what, k)
 	}
 }
+
+// stubCircuit claims /p2p-circuit addresses on G and fails every dial at once. There is no relay in this
+// harness; the stub is the observation point "an address was handed to a transport's Dial": the statement wants
+// outbound dials refused BEFORE any transport dial to a blocked address, for every textual form — and the IP
+// component of a relayed address (/ip4/R/tcp/…/p2p/R/p2p-circuit) is the relay's, which is what the gater matches.
+type stubCircuit struct{ fs *fullStack }
+
+func (t *stubCircuit) Dial(_ context.Context, raddr ma.Multiaddr, p peer.ID) (transport.CapableConn, error) {
+	t.fs.judgeCircuitDial(raddr, p)
+	return nil, errors.New("stub circuit transport: there is no relay here")
+}
+
+// recCircuit (relay stratum) is the REAL circuit-v2 client transport; Dial first judges the address like the stub.
+type recCircuit struct {
+	*client.Client
+	fs *fullStack
+}
+
+func (t *recCircuit) Dial(ctx context.Context, raddr ma.Multiaddr, p peer.ID) (transport.CapableConn, error) {
+	t.fs.judgeCircuitDial(raddr, p)
+	return t.Client.Dial(ctx, raddr, p)
+}
+
+func (fs *fullStack) judgeCircuitDial(raddr ma.Multiaddr, p peer.ID) {
+	fs.probe("circuit-addr-reached-transport")
+	n := fs.names[p]
+	ip := ipOf(raddr)
+	if v := fs.m.ipVerdict(ip); v.def {
+		fs.violate("C10/dialed-blocked-"+kindName[v.kind]+"/circuit/"+fs.phase(v.key), "the swarm handed %s (for peer %s) to a transport's Dial although its IP component matches blocked %s", raddr, n, v.key)
+	}
+	if v := fs.m.peerVerdict(n); v.def {
+		fs.violate("C10/dialed-blocked-peer/circuit/"+fs.phase(v.key), "the swarm handed %s to a transport's Dial although peer %s is blocked", raddr, n)
+	}
+	if n != "" && ip != nil {
+		fs.mu.Lock()
+		asked := fs.calls["AddrDial|"+n+"|circuit|"+normIP(ip)] > 0
+		fs.mu.Unlock()
+		fs.bump()
+		if !asked {
+			fs.violate("C10/hook-not-consulted/InterceptAddrDial/outbound/circuit", "the swarm handed %s (for peer %s) to a transport's Dial but the gater never allowed that address at InterceptAddrDial since this node started", raddr, n)
+		}
+	}
+}
+func (t *stubCircuit) CanDial(a ma.Multiaddr) bool {
+	_, err := a.ValueForProtocol(ma.P_CIRCUIT)
+	return err == nil
+}
+func (t *stubCircuit) Listen(ma.Multiaddr) (transport.Listener, error) {
+	return nil, errors.New("stub circuit transport does not listen")
+}
+func (t *stubCircuit) Protocols() []int { return []int{ma.P_CIRCUIT} }
+func (t *stubCircuit) Proxy() bool      { return true }
 
 func (fs *fullStack) closeG() {
 	if !fs.gClosed {
@@ -1160,6 +1291,7 @@ func (fs *fullStack) round() {
 	// /ip6/::ffff:a.b.c.d/udp/…/quic-v1 is not one: the QUIC transport resolves it with network "udp6", which Go
 	// refuses for an IPv4-mapped address ("no suitable address found") — the gater is still asked about it first.
 	expectLive := map[*host]bool{}
+	usedAsRelay := map[*host]bool{}
 	udpKinds := map[string]int{} // QUIC-based address kinds G knows per destination IP in this round (class of dialed-*)
 	var tasks []*dialTask
 	var desc []string
@@ -1207,8 +1339,32 @@ func (fs *fullStack) round() {
 			if kinds&kWT != 0 {
 				pick(fs.wtForms(h), kWT)
 			}
-			if kinds&kTCP != 0 {
+			// relay stratum: in half of G's dials of P the relayed address is all G knows, so that the connection really
+			// goes through the relay (otherwise a direct address wins the race and the circuit dial is cancelled)
+			circuitOnly := fs.relay && h == fs.P && fs.g.Bool()
+			if kinds&kTCP != 0 && !circuitOnly {
 				pick(h.forms, kTCP)
+			}
+			if circuitOnly || fs.g.Chance(1, 4) {
+				// a relayed address of the peer (relay stratum: P's REAL address through relay Q): "relay" = the other host (or the peer's own decoy IP under the
+				// relay identity R); nobody runs a relay, the stub transport on G records what reaches a Dial
+				rip, rid := hosts[1-i].ip, hosts[1-i].node.ID.String()
+				if fs.g.Bool() && !fs.relay {
+					rip, rid = h.decoy, relayIDText
+				} else if fs.relay {
+					// the real client transport connects to the relay for the circuit dial and drops that
+					// connection again when the dial is cancelled (a direct address won): what the relay host
+					// itself dialled in the same round may have been that very connection — no liveness for it
+					usedAsRelay[hosts[1-i]] = true
+				}
+				rf := "ip4"
+				if isV6(rip) {
+					rf = "ip6"
+				}
+				ca := fmt.Sprintf("/%s/%s/tcp/%d/p2p/%s/p2p-circuit", rf, rip, tcpPort, rid)
+				addrs = append(addrs, ma.StringCast(ca))
+				names = append(names, fmt.Sprintf("/%s/%s/tcp/%d/p2p/…/p2p-circuit", rf, rip, tcpPort))
+				fs.probe("dial-with-circuit-addr")
 			}
 			if fs.g.Chance(1, 4) {
 				fam := "ip4"
@@ -1234,7 +1390,7 @@ func (fs *fullStack) round() {
 			// Mostly G's record of the peer is replaced by this round's addresses; sometimes (drawn) what earlier
 			// rounds and the swarm itself (resolved addresses, TempAddrTTL) left in the peerstore stays, so that a
 			// dial meets addresses learned before the last rule change.
-			if fs.g.Chance(1, 3) {
+			if !circuitOnly && fs.g.Chance(1, 3) {
 				names = append(names, "+ whatever the peerstore still holds")
 				fs.probe("peerstore-addrs-kept")
 				if fs.quic {
@@ -1491,7 +1647,7 @@ func (fs *fullStack) round() {
 		if backoffAtStart[h] && !pv[h].poss && !iv[h].poss && expectLive[h] && nc == 0 {
 			fs.probe("not-connected-with-backoff-kept")
 		}
-		if !pv[h].poss && !iv[h].poss && expectLive[h] && !backoffAtStart[h] {
+		if !pv[h].poss && !iv[h].poss && expectLive[h] && !backoffAtStart[h] && !usedAsRelay[h] {
 			if fs.ackedBlock > 0 {
 				fs.bump()
 			}
@@ -1516,7 +1672,11 @@ func (fs *fullStack) round() {
 	fs.sig = append(fs.sig, fmt.Sprintf("round[%s|%s]", strings.Join(desc, ","), strings.Join(resS, ",")))
 
 	// ---- between rounds: mostly drop the connections so that the next round has to dial again -------------------
-	if !fs.g.Chance(1, 4) {
+	keepConns := fs.g.Chance(1, 4)
+	if fs.relay && !keepConns {
+		keepConns = fs.g.Bool() // an existing connection to the relay is what lets a circuit dial skip the hop's own gating
+	}
+	if !keepConns {
 		for _, h := range hosts {
 			fs.G.Swarm.ClosePeer(h.node.ID)
 			h.node.Swarm.ClosePeer(fs.G.ID)
@@ -1876,11 +2036,13 @@ func (fs *fullStack) runFullStack(mode simnet.LinkMode, tapeS *simrt.Stream) {
 		for _, s := range subnets4 {
 			fs.cat = append(fs.cat, subnetRule(s), subnetRule(s))
 		}
+		fs.cat = append(fs.cat, rawSubnets4...)
 	}
 	if fams[true] {
 		for _, s := range subnets6 {
 			fs.cat = append(fs.cat, subnetRule(s), subnetRule(s))
 		}
+		fs.cat = append(fs.cat, rawSubnets6...)
 	}
 
 	if !fs.startG() {
@@ -1888,19 +2050,56 @@ func (fs *fullStack) runFullStack(mode simnet.LinkMode, tapeS *simrt.Stream) {
 	}
 	defer fs.closeG()
 	for _, h := range []*host{fs.P, fs.Q} {
-		nd, err := simhost.New(fs.n, simhost.Opts{Key: simhost.DetKey(h.seed), IP: h.srcIP, Port: tcpPort, Security: fs.secu, QUIC: fs.quic, WebTransport: fs.quic})
+		nd, err := simhost.New(fs.n, simhost.Opts{Key: simhost.DetKey(h.seed), IP: h.srcIP, Port: tcpPort, Security: fs.secu, QUIC: fs.quic, WebTransport: fs.quic, WithHost: fs.relay})
 		if err != nil {
 			fs.trouble("node %s: %v", h.name, err)
 			return
 		}
 		h.node = nd
 		defer nd.Close()
-		nd.Swarm.SetStreamHandler(func(s network.Stream) { s.Reset() })
+		if !fs.relay {
+			nd.Swarm.SetStreamHandler(func(s network.Stream) { s.Reset() })
+		}
 		nd.PS.AddAddrs(fs.ids["G"], []ma.Multiaddr{fs.G.Addr}, peerstore.PermanentAddrTTL)
 		if nd.ID != fs.ids[h.name] {
 			fs.trouble("identity mismatch for %s", h.name)
 			return
 		}
+	}
+
+	if fs.relay {
+		// Q runs the real circuit-v2 relay service (unlimited, so that relayed connections carry any stream), P gets the
+		// client transport, connects to Q and reserves a slot: /ip/Q/tcp/4001/p2p/Q/p2p-circuit is a working address of P.
+		rl, err := relay.New(fs.Q.node.Host, relay.WithInfiniteLimits())
+		if err != nil {
+			fs.trouble("relay service on Q: %v", err)
+			return
+		}
+		defer rl.Close()
+		cl, err := client.New(fs.P.node.Host, fs.P.node.Up)
+		if err == nil {
+			err = fs.P.node.Swarm.AddTransport(cl)
+		}
+		if err == nil {
+			err = fs.P.node.Swarm.Listen(ma.StringCast("/p2p-circuit"))
+		}
+		if err != nil {
+			fs.trouble("circuit client transport on P: %v", err)
+			return
+		}
+		cl.Start()
+		ctx, cancel := context.WithTimeout(context.Background(), 30*time.Second)
+		err = fs.P.node.Host.Connect(ctx, fs.Q.node.AddrInfo())
+		if err == nil {
+			_, err = client.Reserve(ctx, fs.P.node.Host, fs.Q.node.AddrInfo())
+		}
+		cancel()
+		if err != nil {
+			fs.trouble("P's reservation on relay Q: %v", err)
+			return
+		}
+		fs.settle(time.Second)
+		fs.logf("relay stratum: Q is a circuit-v2 relay, P holds a reservation on it; G has the real circuit client transport")
 	}
 
 	steps := 3 + fs.g.Int(8)
@@ -1986,7 +2185,7 @@ func run(t *testing.T, tape *simrt.Tape) *common.Outcome {
 	g := simrt.Gen{S: tape.G}
 	o := &common.Outcome{}
 	w := &world{o: o, g: g, disk: simdisk.New(), m: newModel(), names: map[peer.ID]string{}, ids: map[string]peer.ID{}}
-	for name, seed := range map[string]int{"G": 1, "P": 2, "Q": 3, "X": 4, "Y": 5} {
+	for name, seed := range map[string]int{"G": 1, "P": 2, "Q": 3, "X": 4, "Y": 5, "R": 6} {
 		id, err := peer.IDFromPrivateKey(simhost.DetKey(seed))
 		if err != nil {
 			o.Trouble = err.Error()
@@ -1995,6 +2194,7 @@ func run(t *testing.T, tape *simrt.Tape) *common.Outcome {
 		w.ids[name] = id
 		w.names[id] = name
 	}
+	relayIDText = w.ids["R"].String()
 	for _, n := range []string{"P", "Q", "X"} {
 		w.cat = append(w.cat, peerRule(n, w.ids[n]))
 	}
@@ -2002,7 +2202,8 @@ func run(t *testing.T, tape *simrt.Tape) *common.Outcome {
 
 	// 0 hooks-direct (simplest: the minimiser may move a gater-level failure there), 1 full-stack over TCP,
 	// 2 full-stack with QUIC next to TCP (drawn FIRST, so that every other draw of a TCP run keeps its meaning)
-	stratum := g.Weighted(1, 3, 3)
+	// 3 full-stack over TCP with a REAL circuit-v2 relay (Q) and a reservation (P)
+	stratum := g.Weighted(1, 3, 3, 1)
 	if forceStratum >= 0 {
 		stratum = forceStratum
 	}
@@ -2011,7 +2212,7 @@ func run(t *testing.T, tape *simrt.Tape) *common.Outcome {
 	if secu == "tls" {
 		mode = simnet.Whole // TLS message lengths depend on crypto/rand (HARNESS_GUIDE)
 	}
-	stratumName := []string{"hooks-direct", "full-stack", "full-stack-quic"}[stratum]
+	stratumName := []string{"hooks-direct", "full-stack", "full-stack-quic", "full-stack-relay"}[stratum]
 	o.Logf("stratum=%s link=%d security=%s", stratumName, mode, secu)
 	o.Probe("stratum-" + stratumName)
 	if stratum >= 1 {
@@ -2037,7 +2238,7 @@ func run(t *testing.T, tape *simrt.Tape) *common.Outcome {
 		if stratum == 0 {
 			w.runHooksDirect()
 		} else {
-			fs := &fullStack{world: w, secu: secu, quic: stratum == 2}
+			fs := &fullStack{world: w, secu: secu, quic: stratum == 2, relay: stratum == 3}
 			fs.runFullStack(mode, tape.S)
 		}
 	})
